@@ -223,10 +223,36 @@ pub fn exec(fields: &[&str]) -> String {
     let key = if kind == "size" { "limit" } else { "interval" };
     let j = run(format!("{{\"{}\": {}}}", key, js), false);
     let y = run(format!("{}: {}\n", key, ys), true);
-    if j == y {
+    // TOML hands every integer to the visitor as i64 (visit_i64), so it exercises the signed path
+    // for non-negative values too. TOML has no integers above i64::MAX and no null; those are skipped.
+    let toml_doc = match form {
+        "int" => payload.parse::<i64>().ok().map(|n| format!("{} = {}\n", key, n)),
+        "str" => dec_str(payload).map(|s| format!("{} = {}\n", key, serde_json::to_string(&s).unwrap())),
+        "other" => match payload {
+            "float" => Some(format!("{} = 1.5\n", key)),
+            "bool" => Some(format!("{} = true\n", key)),
+            _ => None,
+        },
+        _ => None,
+    };
+    let t = toml_doc.map(|doc| {
+        let r = guarded(move || match kind {
+            "size" => match toml::from_str::<SizeTriggerConfig>(&doc) {
+                Ok(c) => render_size(&c),
+                Err(_) => "err".to_owned(),
+            },
+            _ => match toml::from_str::<TimeTriggerConfig>(&doc) {
+                Ok(c) => render_interval(&c),
+                Err(_) => "err".to_owned(),
+            },
+        });
+        r.unwrap_or_else(|_| "PANIC".to_owned())
+    });
+    let toml_ok = t.as_ref().map(|t| *t == j).unwrap_or(true);
+    if j == y && toml_ok {
         j
     } else {
-        format!("FORMATS-DISAGREE json={} yaml={}", j, y)
+        format!("FORMATS-DISAGREE json={} yaml={} toml={}", j, y, t.unwrap_or_else(|| "-".to_owned()))
     }
 }
 
